@@ -333,7 +333,7 @@ class Connection(object):
                 raise
             if t is KeyboardInterrupt and self._config["propagate_KeyboardInterrupt_locally"]:
                 raise
-            self._send(consts.MSG_EXCEPTION, seq, self._box_exc(t, v, tb))
+            self._send_exception(seq, t, v, tb)
         else:
             try:
                 self._send(consts.MSG_REPLY, seq, self._box(res))
@@ -344,7 +344,20 @@ class Connection(object):
                 # with that exception, so the requester is not left waiting
                 t, v, tb = sys.exc_info()
                 self._last_traceback = tb
-                self._send(consts.MSG_EXCEPTION, seq, self._box_exc(t, v, tb))
+                self._send_exception(seq, t, v, tb)
+
+    def _send_exception(self, seq, t, v, tb):  # dispatch
+        try:
+            self._send(consts.MSG_EXCEPTION, seq, self._box_exc(t, v, tb))
+        except EOFError:
+            raise
+        except Exception:
+            # the exception itself cannot be dumped or serialized (an argument whose repr() raises,
+            # an int beyond the str() digit limit, ...); nothing has been sent yet: answer with the
+            # exception's class and a note instead of its arguments
+            name = (str(getattr(t, "__module__", "builtins")), str(getattr(t, "__name__", t)))
+            note = "<exception arguments could not be serialized>"
+            self._send(consts.MSG_EXCEPTION, seq, (name, (note,), (), "<traceback unavailable>"))
 
     def _box_exc(self, typ, val, tb):  # dispatch?
         return vinegar.dump(typ, val, tb,
